@@ -136,7 +136,9 @@ class Ctx:
         natively and returns (violates: bool, detail).  Only a reproducing
         witness is a VIOLATION; otherwise it is an encoding mismatch."""
         try:
-            ok, rdetail = replay(witness)
+            from fv import patch as _patch
+            with _patch.suspended():  # replays run the real code natively, never under symbolic patches
+                ok, rdetail = replay(witness)
         except Exception as e:  # noqa
             ok, rdetail = False, "replay raised " + repr(e) + "\n" + traceback.format_exc()
         rec = {
@@ -169,7 +171,9 @@ class Ctx:
         for k in load_known():
             if k.get("id") == kid and k.get("property") == self.prop and k.get("status") == "open":
                 try:
-                    ok, detail = replay(k["witness"])
+                    from fv import patch as _patch
+                    with _patch.suspended():
+                        ok, detail = replay(k["witness"])
                 except Exception as e:  # noqa
                     ok, detail = False, repr(e)
                 if ok:
